@@ -41,7 +41,10 @@ type ObjSpec struct {
 
 // SrcRef is a CopyFrom / SetX source taken from another record.
 type SrcRef struct {
-	Kind   string // "alt": the independently mutated shadow record; "reader": a reader's record
+	Kind   string // "alt": the independently mutated shadow record; "reader": a reader's record;
+	// "near": a Clone() of the destination itself with the Extra calls applied (a source that
+	// differs from the destination in exactly what Extra changes)
+	Extra  []*Call
 	N      int    // alt: number of alt calls applied
 	Stream []byte // reader: the stream
 	NRead  int    // reader: records read before use
@@ -595,6 +598,14 @@ func (st *State) Exec(root reflect.Value, c *Call) (status int) {
 	}
 	args := make([]reflect.Value, len(c.Args))
 	for i, a := range c.Args {
+		if sr, isRef := a.(*SrcRef); isRef && sr.Kind == "near" {
+			v, ok := nearCopy(st, node, sr.Extra)
+			if !ok || !v.Type().AssignableTo(mt.In(i)) {
+				return ExecNavFailed
+			}
+			args[i] = v
+			continue
+		}
 		v, ok := st.Env.toArg(a, mt.In(i))
 		if !ok {
 			return ExecNavFailed
@@ -628,6 +639,28 @@ func (st *State) Exec(root reflect.Value, c *Call) (status int) {
 		}
 	}
 	return ExecOK
+}
+
+// nearCopy returns a pointer to <node>.Clone(&Allocators{}) with the extra calls applied.
+func nearCopy(st *State, node reflect.Value, extra []*Call) (reflect.Value, bool) {
+	node = addr(node)
+	m := node.MethodByName("Clone")
+	if !m.IsValid() || m.Type().NumIn() != 1 || m.Type().NumOut() != 1 {
+		return reflect.Value{}, false
+	}
+	out := m.Call([]reflect.Value{reflect.New(m.Type().In(0).Elem())})[0]
+	if out.Kind() != reflect.Ptr {
+		p := reflect.New(out.Type())
+		p.Elem().Set(out)
+		out = p
+	}
+	scratch := &State{Cfg: &Cfg{}, Env: st.Env, unguarded: true}
+	for _, c := range extra {
+		if scratch.Exec(out, c) != ExecOK {
+			return out, false
+		}
+	}
+	return out, true
 }
 
 // ---------------------------------------------------------------------------------------
@@ -670,6 +703,13 @@ func fmtArg(a any, seen map[*ObjSpec]bool) string {
 	case *SrcRef:
 		if x.Kind == "alt" {
 			return fmt.Sprintf("alt@%d%s", x.N, navKey(x.Nav))
+		}
+		if x.Kind == "near" {
+			var cs []string
+			for _, c := range x.Extra {
+				cs = append(cs, FmtCall(c, seen))
+			}
+			return fmt.Sprintf("cloneOfDestination{%s}", strings.Join(cs, "; "))
 		}
 		return fmt.Sprintf("readerRecord(stream %dB, after %d reads)%s", len(x.Stream), x.NRead, navKey(x.Nav))
 	}
